@@ -45,7 +45,18 @@ fn main() {
             let code_path = opt.output.clone().unwrap_or(beside_source(".hex"));
             let eeprom_path = opt.eeprom.clone().unwrap_or(beside_source(".eep.hex"));
 
-            if !built.eeprom.is_empty() && code_path == eeprom_path {
+            // where a path leads: its directory as the system names it, and the file name
+            let place = |path: &Path| {
+                let dir = path
+                    .parent()
+                    .filter(|dir| !dir.as_os_str().is_empty())
+                    .unwrap_or(Path::new("."));
+                match (dir.canonicalize(), path.file_name()) {
+                    (Ok(dir), Some(name)) => dir.join(name),
+                    _ => path.to_path_buf(),
+                }
+            };
+            if !built.eeprom.is_empty() && place(&code_path) == place(&eeprom_path) {
                 println!(
                     "Failed to write hex files for {}: flash and eeprom image would go to the same file {}",
                     file_name,
